@@ -298,78 +298,106 @@ func cascadeRule(c *Ctx, rule string) {
 	c.Ob(rule, "parseField/failure", fd.Pos()).Check(ok && len(last.Results) == 2 && c.isNil(last.Results[0]) && !c.isNil(last.Results[1]), "anything else is an error", "parseField does not end in (nil, error)")
 }
 
-// utf8GuardRule: the reject predicate right after DecodeRuneInString, folded over everything the decoder can return.
+// utf8GuardRule, decided on the extracted transition table: ill-formed input ((RuneError,1), (RuneError,0)) must lead to an ERR exit
+// from every state and flag combination (needReject); a correctly encoded U+FFFD must be treated exactly like any other
+// non-ASCII rune — same exit kinds and same next states for every (state, flags) — (needAccept).
 func utf8GuardRule(c *Ctx, rule string, needReject, needAccept bool) {
 	n := 0
-	for _, name := range []string{"parseList", "parseObject"} {
-		fd := c.NeedDecl(rule, name)
-		if fd == nil {
+	for _, m := range c.machines().each() {
+		if !machineReady(c, rule, m) {
 			continue
 		}
-		var loop *ast.ForStmt
-		for _, s := range fd.Body.List {
-			if fs, ok := s.(*ast.ForStmt); ok && loop == nil {
-				loop = fs
-			}
-		}
-		ob := c.Ob(rule, name+"/utf8-guard", fd.Pos())
-		if loop == nil || len(loop.Body.List) < 2 {
-			ob.Undecided("machine loop not found")
-			continue
-		}
-		as, ok := loop.Body.List[0].(*ast.AssignStmt)
-		if !ok || len(as.Lhs) != 2 || len(as.Rhs) != 1 {
-			ob.Fail("the first statement of the loop body is not the rune decode: the guard does not dominate the state switch")
-			continue
-		}
-		call, ok := unparen(as.Rhs[0]).(*ast.CallExpr)
-		if !ok || c.calleeFull(call) != "unicode/utf8.DecodeRuneInString" {
-			ob.Fail("the first statement of the loop body is not utf8.DecodeRuneInString")
-			continue
-		}
-		charV, sizeV := c.obj(as.Lhs[0]), c.obj(as.Lhs[1])
-		guard, ok := loop.Body.List[1].(*ast.IfStmt)
-		if !ok || guard.Else != nil || guard.Init != nil {
-			ob.Fail("the decode is not immediately followed by the ill-formed-input guard (so it does not dominate every state's code)")
-			continue
-		}
-		r := singleReturn(guard.Body)
-		if r == nil || len(r.Results) != 3 || !c.isNil(r.Results[0]) || c.isNil(r.Results[2]) {
-			ob.Fail("the guard does not return (nil, _, error)")
+		if m.undecidedOb(c, rule) {
 			continue
 		}
 		n++
-		const runeError = 0xFFFD
-		type combo struct {
-			ch   int64
-			size int64
-			bad  bool // ill-formed input
-			desc string
+		type keyT struct {
+			st     string
+			iv, vl Tri
 		}
-		combos := []combo{{runeError, 0, true, "(RuneError,0) empty input"}, {runeError, 1, true, "(RuneError,1) ill-formed byte"}, {runeError, 3, false, "(RuneError,3) a correctly encoded U+FFFD"}}
-		for _, sz := range []int64{1, 2, 3, 4} {
-			combos = append(combos, combo{'a' + sz*1000, sz, false, "(valid rune, size " + itoa(int(sz)) + ")"})
-		}
-		good, why := true, ""
-		for _, k := range combos {
-			ev := &evalEnv{c: c, vars: map[types.Object]int64{charV: k.ch, sizeV: k.size}}
-			v, ok := ev.bool(guard.Cond)
-			switch {
-			case !ok:
-				good, why = false, "guard outside the vocabulary: "+ev.fail
-			case k.bad && !v && needReject:
-				good, why = false, "ill-formed input "+k.desc+" is not rejected"
-			case !k.bad && v && needAccept:
-				good, why = false, k.desc+" is rejected although it is valid UTF-8"
+		byClass := map[string]map[keyT]string{}
+		rejectBad, cnt := "", 0
+		for _, r := range m.table() {
+			k := keyT{r.State, r.InVal, r.ValLen}
+			sig := ""
+			var kinds []string
+			for _, ex := range r.Exits {
+				kinds = append(kinds, ex.Kind+">"+ex.Env.State)
+			}
+			sortStrings(kinds)
+			for _, s := range kinds {
+				sig += s + ";"
+			}
+			if byClass[r.Class.Name] == nil {
+				byClass[r.Class.Name] = map[keyT]string{}
+			}
+			byClass[r.Class.Name][k] = sig
+			if r.Class.Name == "BADUTF8" || r.Class.Name == "EMPTY" {
+				for _, ex := range r.Exits {
+					cnt++
+					if ex.Kind != "ERR" && rejectBad == "" {
+						rejectBad = "state=" + r.State + " class=" + r.Class.Name + ": ill-formed UTF-8 is not rejected (exit " + ex.Kind + ")"
+					}
+				}
 			}
 		}
-		if good {
-			ob.Ok("guard `%s` folded over every (rune, size) DecodeRuneInString can return: rejects exactly (RuneError,0|1)", exprStr(guard.Cond))
-		} else {
-			ob.Fail("%s", why)
+		if needReject {
+			ob := c.Ob(rule, m.name+"/utf8-reject", m.loop.Pos())
+			if rejectBad == "" {
+				ob.Ok("(RuneError,1) and (RuneError,0) lead to an ERR exit from every state and flag combination (%d table exits)", cnt)
+			} else {
+				ob.Fail("%s", rejectBad)
+			}
+		}
+		if needAccept {
+			ob := c.Ob(rule, m.name+"/utf8-accept", m.loop.Pos())
+			bad := ""
+			for k, sig := range byClass["OTHER"] {
+				if got := byClass["FFFD"][k]; got != sig && bad == "" {
+					// OTHER has Space=U, so it may have extra whitespace exits; FFFD (not a space) must match one of them: compare against the non-space behaviour
+					if !subsetSig(got, sig) {
+						bad = "state=" + k.st + ": a correctly encoded U+FFFD is treated differently from other non-ASCII runes (" + got + " vs " + sig + "): it is rejected although it is valid UTF-8"
+					}
+				}
+			}
+			if bad == "" {
+				ob.Ok("a correctly encoded U+FFFD (RuneError, size 3) takes exactly the transitions of any other non-ASCII rune in all %d (state, flags) entries", len(byClass["OTHER"]))
+			} else {
+				ob.Fail("%s", bad)
+			}
 		}
 	}
 	c.R.Floor(rule, n, 2)
+}
+
+// subsetSig: every exit of a occurs in b (signatures are ';'-joined sorted lists).
+func subsetSig(a, b string) bool {
+	have := map[string]bool{}
+	for _, x := range splitSemi(b) {
+		have[x] = true
+	}
+	for _, x := range splitSemi(a) {
+		if !have[x] {
+			return false
+		}
+	}
+	return a != ""
+}
+
+func splitSemi(s string) []string {
+	var out []string
+	cur := ""
+	for _, r := range s {
+		if r == ';' {
+			if cur != "" {
+				out = append(out, cur)
+			}
+			cur = ""
+		} else {
+			cur += string(r)
+		}
+	}
+	return out
 }
 
 func encoderPairing(c *Ctx, rule string) {
